@@ -108,6 +108,30 @@ class ImageBatch(DataTensor):
         grids = [g for g in (getattr(arg, "_grid", None) for arg in args) if g is not None]
         if not grids:
             return None
+        if func in (torch.flip, Tensor.flip, torch.roll, Tensor.roll, torch.index_select, Tensor.index_select):
+            # operations which reorder the images along the batch dimension: reorder the grids alike
+            grids = grids[0]
+            ndim = args[0].ndim
+            if func in (torch.flip, Tensor.flip):
+                dims = kwargs.get("dims", args[1:])
+                if len(dims) == 1 and isinstance(dims[0], (tuple, list)):
+                    dims = dims[0]
+                if any(dim % ndim == 0 for dim in dims):
+                    grids = grids[::-1]
+            elif func in (torch.roll, Tensor.roll):
+                shifts = kwargs.get("shifts", args[1] if len(args) > 1 else 0)
+                dims = kwargs.get("dims", args[2] if len(args) > 2 else None)
+                if dims is not None and len(grids) > 0:
+                    shifts = (shifts,) if isinstance(shifts, int) else tuple(shifts)
+                    dims = (dims,) if isinstance(dims, int) else tuple(dims)
+                    shift = sum(n for n, dim in zip(shifts, dims) if dim % ndim == 0) % len(grids)
+                    grids = tuple(grids[len(grids) - shift :]) + tuple(grids[: len(grids) - shift])
+            else:
+                dim = kwargs.get("dim", args[1] if len(args) > 1 else None)
+                index = kwargs.get("index", args[2] if len(args) > 2 else None)
+                if isinstance(dim, int) and dim % ndim == 0 and isinstance(index, Tensor):
+                    grids = tuple(grids[i] for i in index.tolist())
+            return grids
         if kwargs.get("dim", 0) == 0:
             if func == torch.cat:
                 return [g for grid in grids for g in grid]
